@@ -1,4 +1,5 @@
 """Waker typestate for poll functions (C14/R14.1-R14.3, reused by C09-C11, C16)."""
+import os
 import re
 from ..facts import strip, ecall_matches, contains, find_all, fmt, mentions_field
 from .. import conds
@@ -48,13 +49,27 @@ def cx_param(body):
     return None
 
 
+def poll_body(F, f):
+    """the body the typestate runs on: no helper is inlined, but combinator calls with closures (`map_or(Poll::Pending, ..)`,
+    `.map(|ready| ..)`) are rewritten into the branches they stand for, so a Pending hidden in an argument is seen."""
+    if not f.built:
+        return None
+    if os.environ.get("VERIF_NO_POLL_DESUGAR"):
+        return f.built
+    from ..inline import inlined
+    try:
+        return inlined(F, f, keep=lambda c: True, tag="wakers-desugar", desugar=True) or f.built
+    except Exception:
+        return f.built
+
+
 def poll_fns(F, crates):
     """functions that poll an input themselves (not mere delegating wrappers)."""
     out = []
     for f in F.fns.values():
         if f.crate not in crates:
             continue
-        b = f.built
+        b = poll_body(F, f)
         if not b or cx_param(b) is None:
             continue
         sites = [(blk, t) for blk, t in b.calls() if is_poll_call(t)]
@@ -72,7 +87,7 @@ def is_delegation(F, f, t):
 
 def local_poll_helper_calls(F, f):
     """calls of local functions that take a Context and return Poll<..> (private poll helpers, projections)."""
-    b = f.built
+    b = poll_body(F, f)
     out = []
     for blk, t in b.calls():
         c = F.local_callee(f, t)
@@ -84,7 +99,7 @@ def local_poll_helper_calls(F, f):
 
 
 def check_poll_fn(ctx, rule, f, sites):
-    b = f.built
+    b = poll_body(ctx.facts, f)
     cx = cx_param(b)
     site_by_loc = {}
     inputs = []
@@ -129,6 +144,10 @@ def check_poll_fn(ctx, rule, f, sites):
                 ret_kind[loc[0]] = ("PL", loc)
             else:
                 e = b.expr_of_rv(rv, 10, ())
+                x = strip(e, through_calls=False)
+                if x[0] == "agg" and x[1] == "adt" and x[2] == "std::task::Poll" and x[3] == "Pending":
+                    ret_kind[loc[0]] = ("PL", loc)   # a Pending built earlier (e.g. the default of `map_or`) and moved into the return place
+                    continue
                 fw = forwarded_site(e, site_by_loc)
                 ret_kind[loc[0]] = ("FW", fw, loc) if fw else ("O", loc)
         else:
@@ -243,10 +262,81 @@ def check_poll_fn(ctx, rule, f, sites):
                 ctx.violated(rule, f, "pending-with-unsettled-input:" + n, where,
                              "`%s` returns Poll::Pending while its input `%s` %s (%s): no waker is registered with `%s`, so a later item / end of that input never wakes the task (the 0.5.0 limit-stream bug class)" % (
                                  f.path, n, why, desc, n))
+    if f.kind != "coroutine":
+        check_owned_inputs(ctx, rule, f, sites)
     if all_ok:
         ctx.holds(rule, f, "pending=>all-inputs-settled", f.loc(),
                   "inputs %s: at each of the %d (Pending-returning path, state) pairs every input polled with the caller's cx is Pending/Ended (or gated)" % (inputs, n_pending))
     return inputs
+
+
+def polled_owner(b, op, depth=0):
+    """the local that OWNS the object a poll call polls, or None when the object is borrowed from elsewhere (a field of self, a
+    Pin<&mut S> kept in a projection struct ...). Follows `&mut place`, moves and the Pin / as_mut / deref_mut wrappers."""
+    if depth > 8 or op.get("k") not in ("move", "copy"):
+        return None
+    pl = op["place"]
+    l = pl["l"]
+    if pl["proj"]:
+        return None
+    whole, _ = b.defs
+    ds = whole.get(l, [])
+    if len(ds) != 1 or 0 < l <= b.arg_count:
+        return None
+    loc, kind, payload = ds[0]
+    if kind == "assign":
+        rv = payload
+        if rv["k"] in ("ref", "raw"):
+            p2 = rv["place"]
+            if "deref" in p2["proj"]:
+                return None
+            ty = str(b.locals[p2["l"]]["ty"])
+            for el in p2["proj"]:
+                if isinstance(el, dict) and "ty" in el:
+                    ty = str(el["ty"])
+            if ty.startswith("&") or ty.startswith("std::pin::Pin<&") or 0 < p2["l"] <= b.arg_count:
+                return None
+            return p2["l"]
+        if rv["k"] in ("use", "cast"):
+            return polled_owner(b, rv.get("op") or rv.get("x"), depth + 1)
+        return None
+    t = payload
+    if re.search(r"Pin::<.*>::(new|new_unchecked|as_mut|get_mut|get_unchecked_mut|into_ref)$|DerefMut>?::deref_mut$|Deref>?::deref$", t.get("callee") or "") and t["args"]:
+        return polled_owner(b, t["args"][0], depth + 1)
+    return None
+
+
+def check_owned_inputs(ctx, rule, f, sites):
+    """a future that lives in a local of the poll function and is left Pending must be stored back before the function returns
+    Pending: dropping it at the return drops the registration of the caller's waker with it."""
+    b = poll_body(ctx.facts, f)
+    pend = [loc for loc, kind, payload in blocks_assigning_ret(b) if kind == "assign" and payload["k"] == "agg" and payload.get("adt") == "std::task::Poll" and payload["variant"] == "Pending"]
+    for blk, t in sites:
+        if not is_poll_call(t) or not t["args"]:
+            continue
+        r = polled_owner(b, t["args"][0])
+        if r is None:
+            continue
+        movers = set()
+        for loc, s_ in b.iter_stmts():
+            if s_["k"] != "assign":
+                continue
+            rv = s_["rv"]
+            ops = [rv.get("op"), rv.get("x")] + list(rv.get("ops") or [])
+            if any(isinstance(o, dict) and o.get("k") == "move" and o["place"]["l"] == r and not o["place"]["proj"] for o in ops):
+                movers.add(loc[0])
+        for blk2, t2 in b.calls():
+            if any(a.get("k") == "move" and a["place"]["l"] == r and not a["place"]["proj"] for a in t2["args"]):
+                movers.add(blk2)
+        name = b.locals[r].get("name") or ("_%d" % r)
+        reach = b.reachable_from(blk, avoid_blocks=movers - {blk})
+        bad = [loc for loc in pend if loc[0] in reach]
+        where = b.line_at((blk, 10 ** 6))
+        if bad:
+            ctx.violated(rule, f, "pending-with-dropped-input:%s" % name, b.line_at(bad[0]),
+                         "`%s` polls the future in its local `%s` (created / taken out of self in this call) and can return Poll::Pending without putting it back: the future is dropped at the return, and with it the registration of the caller's waker - nothing wakes the task" % (f.path, name))
+        else:
+            ctx.holds(rule, f, "pending-with-dropped-input:%s" % name, where, "the locally owned future `%s` is stored back before any Pending return" % name)
 
 
 def forwarded_site(e, site_by_loc):
@@ -265,7 +355,7 @@ def forwarded_site(e, site_by_loc):
 
 def check_rearm(ctx, rule, f, sites):
     """R14.3: after a Ready result of a re-armable future, every path to return re-arms it (set) or parks the receiver in a state that does."""
-    b = f.built
+    b = poll_body(ctx.facts, f)
     n = 0
     for blk, t in sites:
         if not re.search(r"ReusableBox(Recv)?Future::<.*>::poll$", t.get("callee") or ""):
@@ -296,4 +386,48 @@ def check_rearm(ctx, rule, f, sites):
         ctx.verdict(ok, rule, f, "re-arm:" + name, b.line_at((blk, 10 ** 6)),
                     "every path from the Ready edge (bb%d) to return re-arms `%s` (bb%s) or parks the receiver in YieldBatch (bb%s)" % (ready_t[0], name, rearm, parks),
                     "after `%s` completed, a path returns without re-arming it: the next poll would poll a finished future (panic) / never receive again" % name)
+    return n
+
+
+
+SAFE_BEFORE_REARM = (r"Clone>?::clone$|::lock_owned$|::read_owned$|Deref(Mut)?>?::deref(_mut)?$|Pin::<.*>::(new|as_mut|get_mut|new_unchecked|get_unchecked_mut)$|"
+                     r"ReusableBox(Recv)?Future::<.*>::(set|try_set)$|ops::Try>?::branch$|FromResidual.*::from_residual$|get_context$|IntoFuture>?::into_future$")
+
+
+def check_rearm_immediate(ctx, rule, f, sites):
+    """the async subscriber owns its second state reference through the prepared lock future; once that future has completed the
+    reference lives in the guard it returned. Re-arming must therefore come before anything that can run foreign code (the value's
+    `Clone`, the waker's `clone`, a caller's closure): a panic there unwinds with the guard dropped and the future not re-armed - the
+    subscriber then holds one reference instead of two for the rest of its life, and its next poll polls a finished future."""
+    b = poll_body(ctx.facts, f)
+    n = 0
+    for blk, t in sites:
+        if not re.search(r"ReusableBoxFuture::<.*>::poll$", t.get("callee") or ""):
+            continue
+        name = input_name(b, t)
+        rearm = [rblk for rblk, rt in b.calls(REARM_PAT) if input_name(b, rt) == name]
+        if not rearm:
+            continue
+        n += 1
+        between = b.reachable_from(t["target"], avoid_blocks=rearm) if t.get("target") is not None else set()
+        bad = []
+        for x in sorted(between):
+            tt = b.term(x)
+            if tt["k"] == "call" and not re.search(SAFE_BEFORE_REARM, tt.get("callee") or "") and any(r_ in b.reachable_from(x) for r_ in rearm):
+                # only calls clone of the handle itself are harmless; a Clone::clone of anything else was excluded by type below
+                bad.append((x, tt))
+        for x in sorted(between):
+            tt = b.term(x)
+            if tt["k"] == "call" and re.search(r"Clone>?::clone$", tt.get("callee") or "") and any(r_ in b.reachable_from(x) for r_ in rearm):
+                ty = str(b.locals[tt["dest"]["l"]]["ty"]) if not tt["dest"]["proj"] else ""
+                if not re.search(r"SharedReadLock<|Arc<", ty):
+                    bad.append((x, tt))
+        where = b.line_at((blk, 10 ** 6))
+        if bad:
+            x, tt = bad[0]
+            ctx.violated(rule, f, "re-arm-before-foreign-code:" + name, b.line_at((x, 10 ** 6)),
+                         "`%s` calls `%s` after `%s` completed and before it is re-armed: if that call panics (a panicking `Clone` of the value, a waker's clone, a caller's closure), the subscriber is left with a finished lock future - it owns one state reference instead of two, so strong_count / subscriber_count are off by one for every such subscriber, and its next poll panics" % (
+                             f.path, (tt.get("callee") or "?").split("::")[-1], name))
+        else:
+            ctx.holds(rule, f, "re-arm-before-foreign-code:" + name, where, "`%s` is re-armed right after it completed" % name)
     return n
